@@ -328,6 +328,7 @@ type vfcaRun struct {
 	owns     map[string]int
 	acctSeed map[string]int  // account rendezvous seed bytes -> position of the reset event
 	known    map[string]bool // entry hashes seen so far
+	lastSeed map[string][]byte // contact name -> the seed bytes the last well-formed enqueue / incoming request carried
 	n0       int             // entries of the account log that precede the script
 	napp     int             // events appended by the script so far
 }
@@ -396,7 +397,7 @@ func (r *vfcaRun) appended() []map[string]any {
 			continue
 		}
 		r.known[h] = true
-		meta, evt, err := openMetadataEntry(ms.OpLog(), e, ms.group)
+		meta, evt, err := vfOpenMetadataEntry(ms.OpLog(), e, ms.group)
 		if err != nil {
 			out = append(out, map[string]any{"k": "undecodable", "sub": "-", "seed": 0, "meta": 0, "own": 0})
 			r.napp++
@@ -632,9 +633,28 @@ func vfcaScriptRun(t testing.TB, sc vfScript) []map[string]any {
 			// the shareable contact of enqueue / incoming received
 			shareable := func() *protocoltypes.ShareableContact {
 				sd := vfcaBytes(32)
-				r.seeds[string(sd)] = i
+				// "sameseed": the request carries the seed the previous request for this contact carried (a re-send
+				// with other metadata); the seed keeps its first symbolic name
+				// "sameseed": the seed the store currently reports for this contact (nothing reported: a fresh one)
+				var prev []byte
+				if c != nil {
+					if ac, has := r.w.ms().ListContacts()[string(c.raw)]; has && ac.contact != nil && len(ac.contact.PublicRendezvousSeed) > 0 {
+						prev = ac.contact.PublicRendezvousSeed
+					}
+				}
+				if variant == "sameseed" && prev != nil {
+					sd = prev
+				} else {
+					r.seeds[string(sd)] = i
+				}
+				if c != nil && (variant == "" || variant == "sameseed") {
+					if r.lastSeed == nil {
+						r.lastSeed = map[string][]byte{}
+					}
+					r.lastSeed[c.name] = sd
+				}
 				sh := &protocoltypes.ShareableContact{Pk: keyBytes(), PublicRendezvousSeed: sd}
-				arg := map[string]any{"seed": i, "meta": 0, "own": 0}
+				arg := map[string]any{"seed": r.seeds[string(sd)], "meta": 0, "own": 0}
 				if st.Y&1 != 0 {
 					sh.Metadata = []byte(fmt.Sprintf("meta-%d-%d", sc.ID, i))
 					r.metas[string(sh.Metadata)] = i
